@@ -51,30 +51,35 @@ HistTexts == SetToSeq({[p |-> q, fmt |-> f] : q \in HistPaths, f \in HistFmts})
 VARIABLES hist,   \* steps <<kind, n, d, x>> so far
           ist,    \* code shape: process heap
           abs,    \* requirement state
-          bad     \* clauses violated by the last step
-vars == <<hist, ist, abs, bad>>
+          bad,    \* clauses violated by the last step
+          tab     \* constant: the texts of the universe printed and parsed
+vars == <<hist, ist, abs, bad, tab>>
 
 Abs0 == [heap |-> <<>>, texts |-> HistTexts,
          res |-> [i \in DOMAIN HistTexts |-> NoPath]]
 
+(* the texts of the universe, printed and parsed once (constant level)     *)
+(* (kept in the state variable `tab`: TLC does not pre-evaluate constant    *)
+(* definitions that use RECURSIVE operators)                               *)
+HistPrinted == [i \in DOMAIN HistTexts |->
+                  LET x == PrintU(V, HistTexts[i].p, HistTexts[i].fmt)
+                  IN [text |-> x, r |-> ParseU(V, HistTexts[i].p.kind, x)]]
+
 Init == hist = <<>> /\ ist = IState0 /\ abs = Abs0 /\ bad = {}
+        /\ tab = HistPrinted
 
 Take(st, e, ist2) ==
   /\ hist' = Append(hist, st)
   /\ bad' = HFails(abs, e)
   /\ abs' = IF bad' = {} THEN HApply(abs, e) ELSE abs
   /\ ist' = ist2
-
-(* the texts of the universe, printed and parsed once (constant level)     *)
-HistPrinted == TLCEval([i \in DOMAIN HistTexts |->
-                  LET x == PrintU(V, HistTexts[i].p, HistTexts[i].fmt)
-                  IN [text |-> x, r |-> ParseU(V, HistTexts[i].p.kind, x)]])
+  /\ UNCHANGED tab
 
 ParseStep(t) ==
   LET src == abs.texts[t]
-      text == IF t \in DOMAIN HistPrinted THEN HistPrinted[t].text
+      text == IF t \in DOMAIN tab THEN tab[t].text
               ELSE PrintU(V, src.p, src.fmt)
-      r == IF t \in DOMAIN HistPrinted THEN HistPrinted[t].r
+      r == IF t \in DOMAIN tab THEN tab[t].r
            ELSE ParseU(V, src.p.kind, text)
       ist2 == IF r.ok THEN IParse(V, ist, src.p.kind, text) ELSE ist
       q == IF r.ok THEN Deref(ist2.cells, ist2.roots[Len(ist2.roots)])
